@@ -10,7 +10,42 @@ fn usage() -> ! {
     std::process::exit(2);
 }
 
+/// a log subscriber that wants every event and throws it away: `tracing` evaluates the arguments
+/// of a log statement only when a subscriber is interested, which radar and 1090 always are
+struct EveryEvent;
+
+impl tracing::Subscriber for EveryEvent {
+    fn enabled(&self, _: &tracing::Metadata<'_>) -> bool {
+        true
+    }
+    fn new_span(&self, _: &tracing::span::Attributes<'_>) -> tracing::span::Id {
+        tracing::span::Id::from_u64(1)
+    }
+    fn record(&self, _: &tracing::span::Id, _: &tracing::span::Record<'_>) {}
+    fn record_follows_from(&self, _: &tracing::span::Id, _: &tracing::span::Id) {}
+    fn event(&self, e: &tracing::Event<'_>) {
+        // format the fields, as a real subscriber would
+        struct V(usize);
+        impl tracing::field::Visit for V {
+            fn record_debug(&mut self, _: &tracing::field::Field, v: &dyn std::fmt::Debug) {
+                use std::fmt::Write;
+                let mut s = String::new();
+                let _ = write!(s, "{v:?}");
+                self.0 += s.len();
+            }
+        }
+        let mut v = V(0);
+        e.record(&mut v);
+        std::hint::black_box(v.0);
+    }
+    fn enter(&self, _: &tracing::span::Id) {}
+    fn exit(&self, _: &tracing::span::Id) {}
+}
+
 fn main() {
+    if std::env::var("VERIF_NO_LOG_SUBSCRIBER").is_err() {
+        let _ = tracing::subscriber::set_global_default(EveryEvent);
+    }
     let args: Vec<String> = std::env::args().collect();
     if args.len() >= 2 && args[1] == "helper" {
         helper::main();
